@@ -154,3 +154,103 @@ where
         folder.consume_iter(iter)
     }
 }
+
+// ---------------------------------------------------------------------------
+// Verification hook H3 (add-only; compiled only with `--cfg specs_verif`).
+//
+// `bridge_unindexed` lets rayon's work-stealing scheduler decide when a
+// `JoinProducer` is split and when it is folded. `verif_drive` performs exactly
+// the same two operations (`UnindexedProducer::split` / `fold_with`) on the same
+// private `JoinProducer`, but takes every split decision from the caller, so a
+// test harness can enumerate split trees deterministically. Leaves are folded
+// sequentially on the calling thread.
+// ---------------------------------------------------------------------------
+#[cfg(specs_verif)]
+struct VerifFolder<'s, T> {
+    leaf: usize,
+    sink: &'s mut dyn FnMut(usize, T),
+}
+
+#[cfg(specs_verif)]
+impl<'s, T> Folder<T> for VerifFolder<'s, T> {
+    type Result = ();
+
+    fn consume(self, item: T) -> Self {
+        (self.sink)(self.leaf, item);
+        self
+    }
+
+    fn complete(self) {}
+
+    fn full(&self) -> bool {
+        false
+    }
+}
+
+#[cfg(specs_verif)]
+impl<J> JoinParIter<J>
+where
+    J: ParJoin + Send,
+    J::Mask: Send + Sync,
+    J::Type: Send,
+    J::Value: Send + Sync,
+{
+    /// Opens the join, builds the `JoinProducer` exactly like
+    /// `drive_unindexed` does, then walks a caller-chosen split tree:
+    /// at every node `choose(depth, path)` (`path` = the left(0)/right(1) turns
+    /// taken from the root, most recent turn in the lowest bit) says whether to
+    /// call `split`. A node becomes a leaf when `choose` returns `false` or
+    /// when `split` returns `(p, None)`. Leaves are numbered left to right
+    /// from 0 and folded with `fold_with`; every item is handed to
+    /// `sink(leaf_id, item)`. Returns the number of leaves.
+    pub fn verif_drive(
+        self,
+        choose: &mut dyn FnMut(usize, u64) -> bool,
+        sink: &mut dyn FnMut(usize, J::Type),
+    ) -> usize {
+        fn go<'a, J>(
+            p: JoinProducer<'a, J>,
+            depth: usize,
+            path: u64,
+            next_leaf: &mut usize,
+            choose: &mut dyn FnMut(usize, u64) -> bool,
+            sink: &mut dyn FnMut(usize, J::Type),
+        ) where
+            J: ParJoin + Send,
+            J::Mask: Send + Sync + 'a,
+            J::Type: Send,
+            J::Value: Send + Sync + 'a,
+        {
+            let p = if choose(depth, path) {
+                match p.split() {
+                    (first, Some(second)) => {
+                        go(first, depth + 1, path << 1, next_leaf, choose, sink);
+                        go(second, depth + 1, (path << 1) | 1, next_leaf, choose, sink);
+                        return;
+                    }
+                    (first, None) => first,
+                }
+            } else {
+                p
+            };
+            let leaf = *next_leaf;
+            *next_leaf += 1;
+            p.fold_with(VerifFolder { leaf, sink: &mut *sink }).complete();
+        }
+
+        // SAFETY: same as in `drive_unindexed`: `keys` and `values` are not
+        // exposed and `values` is only used for calling `ParJoin::get`.
+        let (keys, values) = unsafe { self.0.open() };
+        let producer = BitProducer((&keys).iter(), 3);
+        let mut leaves = 0;
+        go(
+            JoinProducer::<J>::new(producer, &values),
+            0,
+            0,
+            &mut leaves,
+            choose,
+            sink,
+        );
+        leaves
+    }
+}
